@@ -139,6 +139,12 @@ class ScriptedTask(experiment.runtime.task.Task):
                         REC.record("output", self.ref, file=name, exec=self.exec_no)
                     except OSError:
                         pass
+            if wd and not harness_cleanup and self.entry.get("stdout") is not None and reason != "Killed":
+                try:
+                    with open(os.path.join(wd, "out.stdout"), "w") as f:
+                        f.write(str(self.entry["stdout"]) + "\n")
+                except OSError:
+                    pass
             self._reason = reason
             self._rc = REASON_TO_RC.get(reason, 1)
             self._t_finish = dilate.vnow_ts()
